@@ -34,6 +34,12 @@ typedef void (*jpv_hash_fn)(void *, size_t, const void *, size_t);
 /* word x word -> dword product; under CBMC optionally the uninterpreted symbol M (DESIGN 3.4) */
 #define JPV_MUL(x, y) ((jpv_u128)(x) * (jpv_u128)(y))
 #endif
+#ifndef JPV_UDIV128
+/* dword / dword and dword % dword; a unit may define them as the axiomatised Euclidean division (quotient and remainder
+   characterised by a == q*b + r, r < b -- the C definition of the operators) instead of CBMC's bit-level divider */
+#define JPV_UDIV128(x, y) ((x) / (y))
+#define JPV_UREM128(x, y) ((x) % (y))
+#endif
 '''
 
 
@@ -486,6 +492,9 @@ class Emitter:
         if op == "*" and self.tstr(n) == "unsigned __int128":
             self.rules["MUL"] += 1
             return "JPV_MUL(%s, %s)" % (self.expr(a, cx), self.expr(b, cx))
+        if op in ("/", "%") and self.tstr(n) == "unsigned __int128":
+            self.rules["DIV128"] += 1
+            return "%s(%s, %s)" % ("JPV_UDIV128" if op == "/" else "JPV_UREM128", self.expr(a, cx), self.expr(b, cx))
         if op == ",":
             return "(%s, %s)" % (self.expr(a, cx), self.expr(b, cx))
         return "(%s %s %s)" % (self.expr(a, cx), op, self.expr(b, cx))
